@@ -89,6 +89,10 @@ def gen_history(rnd, g, kind=""):
         # conditional caches admit only results carrying the capitalised attribute: make them reachable
         g._numeric_prefix = False
         base = g.action(0, 0, True) + "/attr_up/" + g.query(0, first=False, max_len=3)
+    if "if_not_contains(abc)" in kind and rnd.random() < 0.6:
+        # a prefix the condition refuses (lower-case attribute of its last command) with admitted extensions
+        g._numeric_prefix = False
+        base = g.action(0, 0, True) + "/attr_low/" + g.query(0, first=False, max_len=3)
     if base is None and rnd.random() < 0.25:
         # values of every built-in state type (what serialising caches have to round-trip)
         base = rnd.choice(["mk-tuple-3/ident", "mk-pairs-2/ident", "mk-set-2/ident", "mk-df-2/ident", "mk-bytes-3/ident",
